@@ -91,6 +91,8 @@ def all_ops(cfg):
     for p in ('P0', 'P1'):
         for n in ('', 'n'):
             ops.append(('unregU', None, p, n))
+    # calls that are refused (the name is not a string) change nothing
+    ops += [('regU-badname', 'u', 'P0'), ('regA-badname', 'f', 'R0', 'P0')]
     facs = cfg.get('facs', ('f', 'f2', 'g'))
     for f in facs:
         for r in ('R0', 'R1'):
@@ -135,6 +137,16 @@ def step(W, M, op):
         d = c.rebuildUtilityRegistryFromLocalCache(rebuild=True)
         if d['needed_registered'] or d['needed_subscribed']:
             return ('probe-found-something-to-repair', d)
+        exp_events = []
+    elif t in ('regU-badname', 'regA-badname'):
+        try:
+            if t == 'regU-badname':
+                c.registerUtility(W[op[1]], W[op[2]], 7, info='')
+            else:
+                c.registerAdapter(W[op[1]], [W[op[2]]], W[op[3]], 7)
+            return ('non-string-name-accepted', op)
+        except ValueError:
+            pass
         exp_events = []
     elif t == 'regU':
         comp, p, n = W[op[1]], W[op[2]], op[3]
